@@ -75,6 +75,19 @@ CHECKS = {
         "transition executed on RotatingBloomFilter, the window clause evaluated for every key of the history from the code's own answers.",
         note="max_queue_size 1..3, est_elements 1..3; the window clause is read in its weakest form (strictly fewer than (qmax-1)*est further insertions).",
         design="6 (C10)", technique=TECH),
+    "C11": dict(
+        category="fault_enumeration",
+        text="spec/OnDiskBloom.tla splits add into its internal steps (bit stores, in-memory increment, flush of the rewritten count, return) with a Crash "
+        "action enabled in every intermediate state; TLC checks ContainsCompleted, NoForeignBits, CountCurrent, CountNotAhead in EVERY state. Binding: every "
+        "operation-level history TLC generates (incl. adds killed in each intermediate file state, close/reopen cycles, export, clear) is replayed on the "
+        "real class from varying working directories and relative/absolute paths; the operation of each emitted transition runs under sys.settrace and "
+        "the backing file is read through a second descriptor at every executed line/return inside probables/ (= what a SIGKILL there leaves); every "
+        "snapshot is judged against the history oracle and every distinct one is recovered by a real reopen+close; the sequence of distinct file states "
+        "must be the model's sequence of intermediate states (drift).",
+        note="Process kill only (not power loss); line granularity plus the equality in-process snapshot = file after a real fork+SIGKILL, which is "
+        "checked on a sample every run; clear() is not crash-enumerated (the property quantifies over add/close/export).",
+        design="6 (C11), 3.5", technique="explicit TLA+ specification with Crash actions model-checked by TLC; crash points of the real code enumerated by "
+        "line-level tracing of TLC-generated histories and validated against the model's intermediate states"),
     "C12": dict(
         category="model_checking",
         text="Union of every pair of reachable operand states (plain, on-disk in either position, counting) and count-min join are derived in the model "
